@@ -616,14 +616,16 @@ def _st_transport(flavours: list[str]):  # type: ignore[no-untyped-def]
 
 # On CPython 3.12.1 `_SelectorSocketTransport.writelines()` does not call `_maybe_pause_protocol()`, so
 # `send_all_from_iterable()` over a real socket returns while its data is still in the user-space buffer
-# (replays/found/C20-6f70cf9c30f6.json; run with C20_INCLUDE_WRITELINES=1).  Excluded by construction so that the search continues past it.
-EXCLUDE_WRITELINES_STDLIB = os.environ.get("C20_INCLUDE_WRITELINES") != "1"
+# (listed in known_findings.json; the committed replay replays/C20-writelines-3121.json carries "known_finding_probe": true, which
+# bypasses the exclusion so that every run re-observes the finding and prints its KNOWN-FINDING line).  Generated cases exclude the shape
+# by construction so that the search continues past it.
+EXCLUDE_WRITELINES_STDLIB = True
 
 
 def run_real(case: dict) -> Outcome:
     from easynetwork.lowlevel.api_async.backend._asyncio.backend import AsyncIOBackend
 
-    if case.get("api") == "iterable" and EXCLUDE_WRITELINES_STDLIB:
+    if case.get("api") == "iterable" and EXCLUDE_WRITELINES_STDLIB and not case.get("known_finding_probe"):
         return Outcome(nontrivial=False, classes=("excluded-writelines-stdlib",))
     size = case["size"]
     nsends = case["nsends"]
@@ -707,8 +709,10 @@ def run_real(case: dict) -> Outcome:
     if not result["pending_while_blocked"]:
         raise Violation(
             "backpressure",
-            f"{size} bytes were 'sent' in {result['returned_while_blocked']} completed send_all() calls while the peer was not reading "
+            f"{size} bytes were 'sent' in {result['returned_while_blocked']} completed send calls (api {case.get('api', 'send_all')}) while the peer was not reading "
             f"(peak user-space buffer {result['peak_buffer']})",
+            api=case.get("api", "send_all"),
+            where="real-socket",
         )
     if result["returned_while_blocked"] * chunk > 6 * 1024 * 1024:
         # more than the kernel can plausibly hold on a socketpair (a few hundred KiB) were reported as sent
@@ -761,7 +765,7 @@ CHECK = Check(
         "the asyncio selector transports are replaced by pbt/fakeasyncio.py (same callback order and water-mark code, harness-driven kernel pipe); "
         "its writelines() pauses the protocol like write() does; on this 3.12.1 interpreter the real selector transport's writelines() never calls "
         "_maybe_pause_protocol(), so send_all_from_iterable() on a real socket returns with the data still in user space — that shape is excluded "
-        "from the real layer behind EXCLUDE_WRITELINES_STDLIB (counted as class excluded-writelines-stdlib; C20_INCLUDE_WRITELINES=1 re-enables it)",
+        "from the real layer behind EXCLUDE_WRITELINES_STDLIB (counted as class excluded-writelines-stdlib; the committed replay with known_finding_probe re-observes it)",
         "with several concurrent senders 'its bytes have been handed to the OS' is judged per sender from the transport's write log "
         "(get_write_buffer_size()==0 at return is the single-sender special case and is what the real layer checks)",
         "datagram transports keep asyncio's default 64 KiB high-water mark: a datagram sender is only required to stay parked while its own "
